@@ -352,3 +352,8 @@ class BBTab_objective_function:
             "table-block-of-some-seed": exists(range(0, tab.shape[1]), lambda sd: unchanged(result, tab[old.configuration, sd, :, :])),
             "table-unchanged": unchanged(s.self.objectives_evaluations, tab),
         }
+
+
+from pyvc.native import native_monitor  # noqa: E402
+
+EXTRA_CHECKS = [native_monitor("C10", "contracts.c02_native", "monitor_delivery", "delivery", "about 1270 (thorough 4370) scenarios: real Tuner.run with a scripted scheduler (<= 3 workers, <= 5 trials, <= 3 runs per trial) on a generic poll back end (every batching of <= 3 results over <= 3 polls, decisions at every position, late output) and on the simulator with hand-made tables (elapsed-time dips / plateaus / noise at every position, pause / resume cycles, check-pointing on / off, hand-driven clock)")]
